@@ -109,6 +109,7 @@ type World struct {
 	P     *world.Proxy
 	FA    *world.FakeAuth
 	Backs map[string]*world.Backend // by upstream host
+	Hang  bool                      // concretise "no answer" as an authenticator that never answers
 }
 
 const (
